@@ -249,6 +249,12 @@ int main(int argc, char** argv) {
 
     std::vector<std::string> rejected;
     std::vector<std::vector<deckgen::Instance>> cats = {deckgen::catalogue(parser, 0, &rejected), deckgen::catalogue(parser, 1, nullptr)};
+    // value sets 2 and 3: quoted strings containing '/' resp. '--'; only instances with at least two quoted strings on one line
+    for (int v : {2, 3}) {
+        std::vector<deckgen::Instance> sel;
+        for (auto& in : deckgen::catalogue(parser, v, nullptr)) { bool two = false; for (auto& l : in.lines) { int q = 0; for (auto& t : deckgen::tokens(l)) if (!t.empty() && t[0] == '\'') ++q; if (q >= 2) two = true; } if (two && !in.freetext) sel.push_back(in); }
+        cats.push_back(sel);
+    }
 
     if (!run.replay_path.empty()) {
         // "C <variant> <idx> ..." | "T <d|r> <idx> KW mask" | "D <path>" : re-run the whole original (cheap)
@@ -259,7 +265,8 @@ int main(int argc, char** argv) {
     }
 
     if (run.shard == 0) { run.count("catalogue_instances", cats[0].size()); run.count("catalogue_rejected", rejected.size()); std::string rj; for (auto& r : rejected) rj += r.substr(0, 40) + " "; run.notes["catalogue_rejected_list"] = rj.substr(0, 3000); }
-    for (int v = 0; v < 2; ++v)
+    if (run.shard == 0) { run.count("catalogue_instances_slash_in_quotes", cats[2].size()); run.count("catalogue_instances_dashes_in_quotes", cats[3].size()); }
+    for (int v = 0; v < (int)cats.size(); ++v)
         for (size_t i = 0; i < cats[v].size(); ++i) {
             if (!run.mine()) continue;
             if (run.timed_out()) break;
